@@ -310,7 +310,129 @@ def run_same_second(case_id: int):
     return res
 
 
+def run_auto_folders(case_id: int):
+    """the way the CLI takes backups: `backup_auto_folders` (live-backup -> backup_<timestamp>_<rand>, `last-backup` symlink,
+    old backups deleted beyond `keep`), several backups in quick succession while another client goes on working.
+    After every successful backup `last-backup` must be that backup: an existing, valid container with everything that
+    existed when it started; never more than keep+1 backups; the one just taken is never the one deleted."""
+    dos = common.import_repo()
+    from disk_objectstore import backup_utils  # pylint: disable=import-outside-toplevel
+
+    rng = common.rng_for('C15', 'auto-folders', case_id)
+    res = {'case_id': f'auto-folders-{case_id}', 'failures': [], 'breaks': [], 'stats': {'backups': 0, 'auto_folders': 1}, 'sample': None}
+    scratch = common.mkscratch('C15')
+    rp = {'kind': 'auto-folders', 'case_id': case_id, 'seed': common.seed()}
+
+    def fail(sig, text):
+        res['failures'].append({'signature': sig, 'text': text, 'replay': rp})
+
+    try:
+        folder = os.path.join(scratch, 'c')
+        c = dos.Container(folder)
+        c.init_container(hash_type=rng.choice(['sha1', 'sha256']), pack_size_target=rng.choice([4 * 1024 ** 3, 60]))
+        other = dos.Container(folder)
+        table = {}
+        dest = os.path.join(scratch, 'dest')
+        os.mkdir(dest)
+        keep = rng.choice([0, 0, 1, 2])
+        manager = backup_utils.BackupManager(dest, keep=keep)
+        n_backups = rng.randint(2, 5)
+        # the wall clock and the random suffix of the folder names are choices the code leaves to the environment: they are
+        # controlled here (in-process shims of the two module references), so that several backups complete within one second
+        # and the suffixes come out in any order - including the adverse one, newest first
+        import datetime as real_dt  # pylint: disable=import-outside-toplevel
+        import random as real_random  # pylint: disable=import-outside-toplevel
+
+        base = real_dt.datetime(2031, 5, 17, 12, 0, 0, tzinfo=real_dt.timezone.utc)
+        ticks = {'n': 0}
+        per_second = rng.choice([1, 2, 3, 5])  # how many backups complete within the same second
+        suffix_mode = rng.choice(['descending', 'descending', 'random'])
+
+        class _DT:
+            @staticmethod
+            def now(tz=None):
+                return base + real_dt.timedelta(seconds=ticks['n'] // per_second, microseconds=1000 * (ticks['n'] % per_second))
+
+        class _DTmod:
+            datetime = _DT
+            timezone = real_dt.timezone
+            timedelta = real_dt.timedelta
+
+        class _Rnd:
+            @staticmethod
+            def choices(population, k=1, **kw):
+                if suffix_mode == 'descending':
+                    ch = 'zyxwvutsrqponmlkjihgfedcba'[min(25, ticks['n'])]
+                    return [ch] * k
+                return rng.choices(population, k=k)
+
+            def __getattr__(self, name):
+                return getattr(real_random, name)
+
+        old_dt, old_rnd = backup_utils.datetime, backup_utils.random
+        backup_utils.datetime, backup_utils.random = _DTmod, _Rnd()
+        res['stats'][f'auto.per_second.{per_second}'] = 1
+        for bi in range(n_backups):
+            ticks['n'] = bi
+            for _ in range(rng.randint(0, 3)):
+                data = rng.randbytes(rng.randint(0, 40))
+                table[other.add_object(data)] = data
+            if rng.random() < 0.6:
+                other.pack_all_loose(compress=rng.random() < 0.5)
+                if rng.random() < 0.7:
+                    other.clean_storage()
+            at_start = dict(table)
+            manager.backup_auto_folders(lambda path, prev: backup_utils.backup_container(manager, c, path, prev))
+            res['stats']['backups'] += 1
+            names = sorted(x for x in os.listdir(dest) if x.startswith('backup_'))
+            link = os.path.join(dest, 'last-backup')
+            if len(names) > keep + 1:
+                fail('auto-too-many', f'keep={keep}: {len(names)} backups are kept after backup #{bi}')
+            if not os.path.islink(link):
+                fail('auto-no-link', f'backup #{bi} completed but there is no last-backup link')
+                continue
+            target = os.path.join(dest, os.readlink(link))
+            if not os.path.isdir(target):
+                fail('auto-last-backup-gone', f'keep={keep}: backup #{bi} (of {n_backups} taken in quick succession) completed, but the folder last-backup points to '
+                                              f'({os.readlink(link)}) does not exist: the backup just taken was deleted as an "old" one; kept: {names}')
+                continue
+            work = os.path.join(scratch, f'examine{bi}')
+            shutil.copytree(target, work)
+            b = dos.Container(work)
+            try:
+                for k, data in at_start.items():
+                    try:
+                        if b.get_object_content(k) != data:
+                            fail('auto-wrong', f'backup #{bi}: an object reads back wrong')
+                    except dos.exceptions.NotExistent:
+                        fail('auto-missing', f'backup #{bi} (last-backup -> {os.readlink(link)}; kept {names}): an object that existed when it started cannot be read from it')
+                        break
+                if not b.validate().is_valid():
+                    fail('auto-validate', f'backup #{bi}: validate() not clean')
+            finally:
+                b.close()
+            shutil.rmtree(work, ignore_errors=True)
+            if res['failures']:
+                break
+        other.close()
+        c.close()
+    except Exception as exc:  # pylint: disable=broad-except
+        import traceback  # pylint: disable=import-outside-toplevel
+
+        res['breaks'].append({'where': 'harness exception', 'model': '', 'real': f'{type(exc).__name__}: {exc} {traceback.format_exc()[-600:]}',
+                              'theorem_or_correspondence': 'harness', 'case': {'case_id': case_id}})
+    finally:
+        try:
+            backup_utils.datetime, backup_utils.random = old_dt, old_rnd
+        except NameError:
+            pass
+        common.rmscratch(scratch)
+    return res
+
+
 def _job(j):
+    if isinstance(j, tuple):
+        return run_auto_folders(j[1])
     return run_same_second(-j - 1) if j < 0 else run_case(j)
 
 
@@ -431,7 +553,7 @@ def run(tier: str) -> Report:
     timing = [_job(-1), _job(-2)]
     ctx = mp.get_context('fork')
     with ctx.Pool(processes=min(12, os.cpu_count() or 4)) as pool:
-        results = timing + pool.map(_job, list(range(n)), chunksize=1)
+        results = timing + pool.map(_job, list(range(n)) + [('auto', i) for i in range(12 if tier == 'quick' else 150)], chunksize=1)
     for r in results:
         rep.evaluations += max(1, r['stats'].get('backups', 0))
         if r.get('infra'):
@@ -456,12 +578,13 @@ def run(tier: str) -> Report:
 def replay(path: str) -> int:
     doc = json.loads(open(path).read())
     rp = doc.get('replay') or {}
-    if rp.get('kind') not in ('backup', 'same-second'):
+    if rp.get('kind') not in ('backup', 'same-second', 'auto-folders'):
         print('nothing to replay')
         return 2
     os.environ['VERIF_SEED'] = str(rp.get('seed', 0))
     common.build_lean()
-    r = run_case(rp['case_id']) if rp.get('kind') == 'backup' else run_same_second(rp['case_id'])
+    r = (run_case(rp['case_id']) if rp.get('kind') == 'backup' else run_auto_folders(rp['case_id']) if rp.get('kind') == 'auto-folders'
+         else run_same_second(rp['case_id']))
     for f in r['failures']:
         print('FAIL', f['text'])
     for b in r['breaks']:
